@@ -182,12 +182,15 @@ pub fn run_documented(ops: &[(Op, Fault)], variant: u64) -> Option<String> {
 /// are not interpolable at all (a `String`, a `Vec`).
 #[derive(Animate, Clone, Debug, Default, PartialEq)]
 pub(crate) struct Mixed {
+    // (the non-interpolable fields are declared before the first marker: a defect that wrongly
+    // animates fields *after* a marker should show up as a violation on the other shapes, not as
+    // a harness that no longer compiles)
     pub(crate) label: String,
+    history: Vec<u32>,
     #[animate]
     pub(crate) small: i8,
     #[animate]
     wide: f64,
-    history: Vec<u32>,
     #[animate]
     pub count: u16,
     #[animate]
